@@ -197,3 +197,29 @@ func ZZ_C04_child_tries() {
 	vrt.Assert("child_value_via_parent", vrt.And(err == nil, zzSameValue04(g, cv)))
 	vrt.Reach("end")
 }
+
+// ZZ_C04_direct_read_small: three keys of fixed lengths 0, 1 and 2 with one-byte values (small
+// sub-tries are inlined into their parent's encoding), either version; every direct read of a
+// symbolic key agrees with the in-memory trie.
+func ZZ_C04_direct_read_small() {
+	s, _ := zzNewStorage04()
+	tr := inmemory_trie.NewEmptyTrie()
+	if vrt.Bool("v1") {
+		tr.SetVersion(trie.V1)
+	}
+	for i := 0; i < 3; i++ {
+		sfx := string(rune('0' + i))
+		k := zzKey04("k"+sfx, i, i)
+		vrt.Assert("put_ok", tr.Put(k, vrt.Bytes("v"+sfx, 1)) == nil)
+	}
+	root := tr.MustHash()
+	vrt.Assert("store_ok", s.StoreTrie(storage.NewTrieState(tr), nil) == nil)
+	s.tries.delete(root)
+	q := zzKey04("q", 0, 2)
+	want := tr.Get(q)
+	got, err := s.GetStorage(&root, q)
+	vrt.Observe("direct", err != nil, got == nil, want == nil)
+	vrt.Assert("direct_read_ok", err == nil)
+	vrt.Assert("direct_read_value", zzSameValue04(got, want))
+	vrt.Reach("end")
+}
